@@ -45,6 +45,7 @@ def run(ctx):
     # extrema / padding options reach the extrema routine as supplied (defaults only fill in what is missing)
     from .c06 import rule_no_replacement
     ctx.rule(rule_no_replacement, 'C05.R7', only={'emd.sift.interp_envelope', 'emd.sift.get_padded_extrema'})
+    ctx.rule(rule_pad_width, 'C05.R7')
     l1.rule_lib_attrs(ctx, 'L1', [IE], 'envelope')
 
 
@@ -80,11 +81,44 @@ def rule_strict_search(ctx, rid):
         else:
             ctx.violation(rid, fi, c1, 'search is %s' % show(t)[:90], expected=show(want[1]), found=show(t)[:90])
     nonempty = [e for e in exits if any(c[0] == 'cmp' and not truth for c, truth, _ in e.state.conds)]
+    if not nonempty and exits and not any(e.state.conds for e in exits):
+        nonempty = list(exits)      # no early return at all: X[locs] of no locations is the empty result anyway
     bad = None
     for e in nonempty:
         v = e.value
-        if not (v[0] == 'tuple' and len(v[1]) == 2 and v[1][0] == want and v[1][1] == ('sub', X, want)):
+        # argrelextrema of a vector returns a 1-tuple: element -1 is element 0
+        want_m1 = ('sub', want[1], C(-1))
+        if not (v[0] == 'tuple' and len(v[1]) == 2 and v[1][0] in (want, want_m1) and v[1][1] in (('sub', X, want), ('sub', X, want_m1))):
             bad = show(v)[:100]
+    # the early "nothing found" return is taken exactly when the search found no location
+    import operator as _op
+    OPS_ = {'==': _op.eq, '!=': _op.ne, '<': _op.lt, '<=': _op.le, '>': _op.gt, '>=': _op.ge}
+    c3 = 'the empty result is returned exactly when the search finds no extremum'
+    verdict3 = None
+    for e in exits:
+        v = e.value
+        def _empty_arr(x):
+            if x[0] != 'call' or not x[2]:
+                return False
+            if x[1] in ('numpy.array', 'numpy.asarray') and x[2][0] in (('list', ()), ('tuple', ())):
+                return True
+            return x[1] in ('numpy.empty', 'numpy.zeros') and x[2][0] in (C(0), ('tuple', (C(0),)), ('list', (C(0),)))
+        empty_ret = v[0] == 'tuple' and len(v[1]) == 2 and all(_empty_arr(x) for x in v[1])
+        for cd, tr, ln in e.state.conds:
+            if cd[0] == 'cmp' and cd[1] in OPS_ and is_c(cd[3]) and isinstance(cd[3][1], int) and (
+                    (cd[2][0] == 'call' and cd[2][1] == 'builtins.len' and cd[2][2] and cd[2][2][0] in (want, ('sub', want[1], C(-1))))
+                    or (cd[2][0] == 'attr' and cd[2][2] == 'size' and cd[2][1] in (want, ('sub', want[1], C(-1))))):
+                for n_ in (0, 1, 2, 3):
+                    taken = OPS_[cd[1]](n_, cd[3][1]) == tr
+                    if taken and empty_ret != (n_ == 0):
+                        verdict3 = 'with %d extrema found the routine %s' % (n_, 'returns the empty result' if empty_ret
+                                                                            else 'goes on although nothing was found')
+                if verdict3 is None:
+                    verdict3 = verdict3 or 'ok'
+    if verdict3 and verdict3 != 'ok':
+        ctx.violation(rid, fi, c3, verdict3)
+    elif verdict3 == 'ok':
+        ctx.passed(rid, fi, c3)
     if bad:
         ctx.violation(rid, fi, c2, 'default path returns %s' % bad)
     elif not nonempty:
@@ -232,6 +266,16 @@ def rule_padding(ctx, rid):
         conj = ('and', tuple(c if truth else ('un', 'not', c) for c, truth in on_L))
         spec = ('and', (('cmp', '>=', ('call', 'builtins.max', (L,), ()), ('call', 'builtins.len', (Xs,), ())),
                         ('cmp', '<', ('call', 'builtins.min', (L,), ()), C(0))))
+        # the number of samples read off any single column of X is len(X)
+        from ..paths import substitute as _subst
+        colmap = {}
+        for t_ in subterms(conj):
+            if t_[0] == 'call' and t_[1] == 'builtins.len' and len(t_[2]) == 1 and t_[2][0][0] == 'sub' and t_[2][0][1] == Xs \
+                    and t_[2][0][2][0] == 'tuple' and len(t_[2][0][2][1]) == 2 and t_[2][0][2][1][0] == ('slice', NONE, NONE, NONE) \
+                    and is_c(t_[2][0][2][1][1]) and isinstance(t_[2][0][2][1][1][1], int):
+                colmap[t_] = ('call', 'builtins.len', (Xs,), ())
+        if colmap:
+            conj = _subst(conj, colmap)
         got, want = nnf(conj, alg), nnf(spec, alg)
         # X may have been sliced to 1-d first: len(X[:, 0]) == len(X)
         spec2 = ('and', (('cmp', '>=', ('call', 'builtins.max', (L,), ()),
@@ -688,3 +732,53 @@ def rule_parabola(ctx, rid):
         ctx.passed(rid, fe, c4)
     else:
         ctx.violation(rid, fe, c4, 'refinement is not fed with [X[l-1], X[l], X[l+1]]')
+
+
+# ----------------------------------------------------------------------------------------------
+def rule_pad_width(ctx, rid):
+    """The number of extrema mirrored at each end is the caller's pad_width; the only documented change is lowering it
+    to the number of extrema found when there are fewer.  Every np.pad call on every return path of
+    get_padded_extrema is looked at: a width other than the parameter must be known, on that path, to be smaller."""
+    P = ctx.P
+    fi = P.func('emd.sift.get_padded_extrema')
+    c = 'the pad width applied is the requested pad_width, lowered only when fewer extrema exist'
+    PW = S('pad_width')
+    bad = None
+    n = 0
+    for mode in ('peaks', 'troughs'):
+        for e in Evaluator(P).run(fi, context={'mode': mode}):
+            ctx.paths += 1
+            if e.kind != 'return':
+                continue
+            terms = [e.value] + [v for v in e.state.env.values() if isinstance(v, tuple)]
+            pads = [t for x in terms for t in subterms(x) if t[0] == 'call' and t[1] == 'numpy.pad']
+            for t in pads:
+                w = t[2][1] if len(t[2]) > 1 else dict(t[3]).get('pad_width')
+                if w is None:
+                    continue
+                n += 1
+                if w == PW:
+                    continue
+                if w[0] == 'call' and w[1] in ('builtins.min', 'numpy.minimum') and PW in w[2]:
+                    continue            # min(pad_width, ...) never exceeds the request
+                lower = False
+                for cd, tr, ln in e.state.conds:
+                    if cd[0] == 'cmp' and {cd[2], cd[3]} == {w, PW}:
+                        op = cd[1] if cd[2] == w else {'<': '>', '<=': '>=', '>': '<', '>=': '<='}.get(cd[1], cd[1])
+                        eff = op if tr else {'<': '>=', '<=': '>', '>': '<=', '>=': '<'}.get(op)
+                        if eff in ('<', '<='):
+                            lower = True
+                if not lower:
+                    bad = (e, 'np.pad is applied with a width of %s on a path that does not establish that it is smaller than the '
+                           'requested pad_width: the caller\'s padding option is replaced' % show(w)[:60])
+                    break
+            if bad:
+                break
+        if bad:
+            break
+    if bad:
+        ctx.violation(rid, fi, c, bad[1], node=bad[0].node)
+    elif n == 0:
+        ctx.undecided(rid, fi, c, 'no np.pad call found on a return path')
+    else:
+        ctx.passed(rid, fi, c, '%d np.pad call states' % n)
